@@ -20,10 +20,15 @@ Record control := { c_raw : list N; c_desc : string; c_datahash : list string }.
 Record data := { d_raw : list N; d_files : list dfile }.
 Record apkfile := { a_ctl : control; a_dat : data }.
 
-(* the package handle (index entry or lock-file entry): URL and checksum string.
-   [h_q1]: the string starts with "Q1"; [h_sum]: base64 decoding of the string
-   with one leading "Q1" removed (None = not base64). *)
-Record handle := { h_url : string; h_q1 : bool; h_sum : option (list N) }.
+(* the package handle (index entry or lock-file entry): URL and checksum string *)
+Record handle := { h_url : string; h_chk : string }.
+
+(* strings.HasPrefix(chk, "Q1") / strings.TrimPrefix(chk, "Q1") *)
+Definition is_q1 (a b : ascii) : bool := Ascii.eqb a "Q"%char && Ascii.eqb b "1"%char.
+Definition h_q1 (h : handle) : bool :=
+  match h_chk h with String a (String b _) => is_q1 a b | _ => false end.
+Definition strip_q1 (s : string) : string :=
+  match s with String a (String b r) => if is_q1 a b then r else s | _ => s end.
 
 (* ---- hex ------------------------------------------------------------------ *)
 Definition nib (n : N) : ascii :=
@@ -68,6 +73,11 @@ Inductive eres := XOk (x : exp) | XErr (e : eclass).
 Section Oracles.
   Variable sha1 : list N -> list N.
   Variable sha256 : list N -> list N.
+  Variable b64 : string -> option (list N).      (* base64.StdEncoding.DecodeString; None = error *)
+
+  (* the checksum the handle records: base64 of the string with one leading
+     "Q1" removed *)
+  Definition h_sum (h : handle) : option (list N) := b64 (strip_q1 (h_chk h)).
 
   (* expandapk.checkSums: only regular files, only when a checksum is recorded *)
   Fixpoint check_sums (fs : list dfile) : bool :=
@@ -147,16 +157,19 @@ Section Oracles.
     end.
 
   (* the method APK.expandPackage: with a cache configured the result is memoised per
-     process BY URL (globalApkCache), errors included *)
+     process (globalApkCache), errors included. Since fix 9459281 the key is
+     URL + "@" + ChecksumString(); before, it was the URL alone and a request
+     recording another checksum got the first expansion back (C05-F1). *)
   Definition memo := list (string * eres).
+  Definition memo_key (h : handle) : string := (h_url h ++ "@" ++ h_chk h)%string.
   Definition expand_package (m : memo) (k : option cache) (h : handle) (served : option apkfile)
     : eres * option cache * memo :=
     match k with
     | None => let (r, k') := expand_uncached None h served in (r, k', m)
     | Some _ =>
-        match assoc_s (h_url h) m with
+        match assoc_s (memo_key h) m with
         | Some r => (r, k, m)
-        | None => let (r, k') := expand_uncached k h served in (r, k', (h_url h, r) :: m)
+        | None => let (r, k') := expand_uncached k h served in (r, k', (memo_key h, r) :: m)
         end
     end.
 End Oracles.
